@@ -68,14 +68,17 @@ func htNormHash(h uint64) uint64 {
 
 func (t *htable[K, V]) lookup(hash uint64, key K) (*cacheItem[K, V], bool) {
 	tag := htNormHash(hash)
+	verifYield(201)
 	d := t.data.Load()
 	i := tag & d.mask
 	for {
 		s := &d.slots[i]
+		verifYield(202)
 		switch s.tag.Load() {
 		case 0:
 			return nil, false
 		case tag:
+			verifYield(203)
 			if it := s.item.Load(); it != nil && it.key == key {
 				return it, true
 			}
@@ -100,7 +103,9 @@ func (t *htable[K, V]) store(it *cacheItem[K, V]) (prev *cacheItem[K, V]) {
 				dst = &d.slots[firstTomb]
 				t.tombs--
 			}
+			verifYield(211)
 			dst.item.Store(it)
+			verifYield(212)
 			dst.tag.Store(tag)
 			t.live++
 			t.maybeGrow()
@@ -111,6 +116,7 @@ func (t *htable[K, V]) store(it *cacheItem[K, V]) (prev *cacheItem[K, V]) {
 			}
 		case tag:
 			if cur := s.item.Load(); cur != nil && cur.key == it.key {
+				verifYield(213)
 				s.item.Store(it) // same tag, swap the value-carrying item
 				return cur
 			}
@@ -176,7 +182,9 @@ func (t *htable[K, V]) publish(it *cacheItem[K, V], cur htCursor[K, V]) {
 	// an eviction between probe and publish may have reclaimed the cursor's
 	// tombstone (reclaimTombs), so only credit a tombstone that still exists.
 	wasTomb := cur.tomb && s.tag.Load() == 1
+	verifYield(221)
 	s.item.Store(it)
+	verifYield(222)
 	s.tag.Store(htNormHash(it.hash))
 	t.live++
 	if wasTomb {
@@ -190,6 +198,7 @@ func (t *htable[K, V]) publish(it *cacheItem[K, V], cur htCursor[K, V]) {
 // tag doesn't either, and a reader racing the swap gets the old item or the
 // new one - both are complete snapshots of the key.
 func (t *htable[K, V]) swapAt(slot *htslot[K, V], it *cacheItem[K, V]) {
+	verifYield(214)
 	slot.item.Store(it)
 }
 
@@ -207,7 +216,9 @@ func (t *htable[K, V]) removeExact(it *cacheItem[K, V]) bool {
 			return false
 		case tag:
 			if s.item.Load() == it {
+				verifYield(231)
 				s.tag.Store(1)
+				verifYield(232)
 				s.item.Store(nil)
 				t.live--
 				t.tombs++
@@ -231,6 +242,7 @@ func (t *htable[K, V]) reclaimTombs(d *htableData[K, V], i uint64) {
 		return
 	}
 	for i != t.pinned && d.slots[i].tag.Load() == 1 {
+		verifYield(233)
 		d.slots[i].tag.Store(0)
 		t.tombs--
 		i = (i - 1) & d.mask
@@ -261,6 +273,7 @@ func (t *htable[K, V]) forEach(fn func(*cacheItem[K, V]) bool) {
 func (t *htable[K, V]) clear() {
 	d := t.data.Load()
 	n := len(d.slots)
+	verifYield(241)
 	t.data.Store(&htableData[K, V]{slots: make([]htslot[K, V], n), mask: uint64(n - 1)})
 	t.live = 0
 	t.tombs = 0
@@ -311,6 +324,7 @@ func (t *htable[K, V]) rehash(newN int) {
 		nd.slots[j].tag.Store(tag)
 		live++
 	}
+	verifYield(251)
 	t.data.Store(nd)
 	t.live = live
 	t.tombs = 0
